@@ -2063,6 +2063,9 @@ def pad(array, pad_width, mode="constant", **kwargs):
 
     array = array.asformat("coo")
 
+    if (np.asarray(pad_width) < 0).any():
+        raise ValueError("pad_width can't contain negative values.")
+
     pad_width = np.broadcast_to(pad_width, (len(array.shape), 2))
     new_coords = array.coords + pad_width[:, 0:1]
     new_shape = tuple([array.shape[i] + pad_width[i, 0] + pad_width[i, 1] for i in range(len(array.shape))])
